@@ -118,6 +118,7 @@ def _exec(self, s, st, frame):
     if isinstance(s, ast.Break):
         if frame.loops:
             frame.loops[-1]['breaks'].append(st)
+        frame.last_break_hit = True
         frame.last_end = 'break'
         return None
     if isinstance(s, ast.Continue):
@@ -376,11 +377,10 @@ def s_If(self, s, st, frame):
     abrupt = False
     raised = False
     sta, stb = st.fork(), st.fork()
-    refine = None
-    if self.d4:
-        refine = _refine_equal(self, s.test, sta, stb)
+    refine = _refine_equal(self, s.test, sta, stb)
     try:
         frame.last_end = None
+        frame.last_break_hit = False
         a = self.exec_block(s.body, sta, frame)
         if a is None and frame.last_end in ('break', 'continue', 'return'):
             abrupt = True
@@ -402,49 +402,79 @@ def s_If(self, s, st, frame):
             self.pc = save | frozenset(l for l in taint_of(c) if isinstance(l, str) and l.startswith('V:'))
         else:
             self.pc = save
+    if refine is not None and frame.loops:
+        # `if k == v: ... break` with v inside the range of the innermost loop: the loop always ends through this break
+        m_, true_special, _nm, _kv = refine
+        special_end = a if true_special else b
+        sym_ = list(m_)[0]
+        if special_end is None and sym_ in Aff.BOUNDS and frame.last_break_hit:
+            lo_, hi_ = Aff.BOUNDS[sym_]
+            v_ = m_[sym_]
+            if lo_ is not None and hi_ is not None and aff_le(lo_, v_) and aff_le(v_ + 1, hi_):
+                frame.loops[-1]['certain'] = True
     if refine is not None and a is not None and b is not None:
         _reconcile(refine, a, b)
     return join_st(a, b)
 
 
 def _refine_equal(self, test, st_true, st_false):
-    """`if k == c` on a loop symbol k: inside the true arm every charge that mentions k is evaluated at k = c"""
-    if not (isinstance(test, ast.Compare) and len(test.ops) == 1 and isinstance(test.left, ast.Name)):
-        return
-    name = test.left.id
-    v = st_true.env.get(name)
-    if not (isinstance(v, IntV) and v.a is not None and len(v.a.t) == 1 and v.a.c == 0):
-        return
-    sym = list(v.a.t)[0]
-    if sym not in Aff.BOUNDS:
-        return
+    """`if <affine in one loop symbol> == <expr>` (or !=): inside the arm where equality holds every charge and size
+    signature that mentions the loop symbol is evaluated at the value the equality fixes"""
+    if not (isinstance(test, ast.Compare) and len(test.ops) == 1 and isinstance(test.ops[0], (ast.Eq, ast.NotEq))):
+        return None
     try:
-        c = self.eval(test.comparators[0], st_true)
+        lv = self.eval(test.left, st_true)
+        rv = self.eval(test.comparators[0], st_true)
     except PathEnd:
-        return
-    ic = _asint(c)
-    if ic is None or ic.a is None:
-        return
-    target = st_true if isinstance(test.ops[0], ast.Eq) else (st_false if isinstance(test.ops[0], ast.NotEq) else None)
-    if target is None:
-        return
+        return None
+    il, ir = _asint(lv), _asint(rv)
+    if il is None or ir is None or il.a is None or ir.a is None:
+        return None
+    d = il.a - ir.a
+    syms = [s_ for s_ in d.t if s_ in Aff.BOUNDS]
+    if len(syms) != 1:
+        return None
+    sym = syms[0]
+    coef = d.t[sym]
+    rest = d - Aff(0, {sym: coef})
+    val = (-rest).scale(1 / coef)
+    if not val.is_integral() and not all(v.denominator == 1 for v in val.t.values()):
+        return None
+    target = st_true if isinstance(test.ops[0], ast.Eq) else st_false
     from . import charge as Q
-    m = {sym: ic.a}
-    target.env[name] = Const(int(ic.a.c)) if ic.a.is_const() else IntV(ic.a)
-    result = (m, target is st_true, name, v)
-    for k_, val in list(target.env.items()):
-        if isinstance(val, Num) and val.q is not None and val.q != 'any':
-            q = val.q
-            if isinstance(q, Aff) and sym in q.t:
-                nv = val.copy(seg=val.seg, segax=val.segax)
-                nv.uid = val.uid
-                nv.q = q.subs(m)
-                target.env[k_] = nv
-            elif Q.is_lin(q) and sym in q[2].t:
-                nv = val.copy(seg=val.seg, segax=val.segax)
-                nv.uid = val.uid
-                nv.q = Q.lin(q[1], q[2].subs(m))
-                target.env[k_] = nv
+    import sympy as sp
+    m = {sym: val}
+    name = None
+    kval = None
+    for k_, v_ in list(target.env.items()):
+        if isinstance(v_, IntV) and v_.a is not None and len(v_.a.t) == 1 and v_.a.c == 0 and list(v_.a.t)[0] == sym \
+                and v_.a.t[sym] == 1:
+            name, kval = k_, v_
+    if name is not None:
+        target.env[name] = Const(int(val.c)) if val.is_const() else IntV(val, kval.taint)
+    result = (m, target is st_true, name, kval)
+    ssym = sp.Symbol(sym, positive=True)
+    sval = val.to_sympy()
+    for k_, v_ in list(target.env.items()):
+        if not isinstance(v_, Num):
+            continue
+        nq, nsz = v_.q, v_.sz
+        changed = False
+        if isinstance(nq, Aff) and sym in nq.t:
+            nq = nq.subs(m)
+            changed = True
+        elif Q.is_lin(nq) and sym in nq[2].t:
+            nq = Q.lin(nq[1], nq[2].subs(m))
+            changed = True
+        if v_.shape == () and nsz is not None and nsz is not sp.S.One and ssym in getattr(nsz, 'free_symbols', ()):
+            nsz = sp.cancel(nsz.subs(ssym, sval))
+            changed = True
+        if changed:
+            nv = v_.copy(seg=v_.seg, segax=v_.segax)
+            nv.uid = v_.uid
+            nv.q = nq
+            nv.sz = nsz
+            target.env[k_] = nv
     return result
 
 
@@ -454,11 +484,26 @@ def _reconcile(refine, sa, sb):
     from . import charge as Q
     m, true_is_special, name, kval = refine
     special, general = (sa, sb) if true_is_special else (sb, sa)
-    special.env[name] = kval
+    if name is not None:
+        special.env[name] = kval
     for k_, va in list(special.env.items()):
         vb = general.env.get(k_)
         if not (isinstance(va, Num) and isinstance(vb, Num)):
             continue
+        if va.shape == () and va.sz is not None and vb.sz is not None and va.sz is not vb.sz:
+            import sympy as sp
+            try:
+                gen = vb.sz
+                for s_, val in m.items():
+                    gen = gen.subs(sp.Symbol(s_, positive=True), val.to_sympy())
+                if sp.cancel(gen - va.sz) == 0:
+                    nv = va.copy(seg=va.seg, segax=va.segax)
+                    nv.uid = va.uid
+                    nv.sz = vb.sz
+                    special.env[k_] = nv
+                    va = nv
+            except Exception:
+                pass
         qa, qb = va.q, vb.q
         if qa is None or qb is None or qa == 'any' or qb == 'any' or qa == qb:
             continue
@@ -537,15 +582,17 @@ def loop_fix(self, s, st, frame, head):
     """fixpoint of a loop; `head(state)` evaluates the loop head on a forked state and returns it (or None)"""
     cur = st
     exits = []
+    certain = False
     save_pc = self.pc
     for _pass in range(LOOP_PASSES):
-        frame.loops.append({'breaks': [], 'conts': []})
+        frame.loops.append({'breaks': [], 'conts': [], 'certain': False})
         body_in = head(cur.fork())
         if body_in is None:
             frame.loops.pop()
             break
         out = self.exec_block(s.body, body_in, frame)
         info = frame.loops.pop()
+        certain = certain or info.get('certain', False)
         for c in info['conts']:
             out = join_st(out, c)
         exits.extend(info['breaks'])
@@ -553,7 +600,9 @@ def loop_fix(self, s, st, frame, head):
         cur = new
     self.pc = save_pc
     res = cur
-    if s.orelse:
+    if certain and exits:
+        res = None           # the normal exit is infeasible: the loop always leaves through the break
+    elif s.orelse:
         res = self.exec_block(s.orelse, res, frame)
     for b in exits:
         res = join_st(res, b)
